@@ -1,1 +1,288 @@
-// Verification-only module (cfg(kani)); harnesses are added here.
+// Verification-only module (cfg(kani)); copied into the scratch copy of /repo by
+// /verif/engine/kani_run.py.
+//
+// C13, secret-tree part (RFC 9420 section 9): the real SecretTree / SecretKeyRatchet code is
+// run against the ghost crypto provider (see key_schedule/verif_kani.rs) and the recorded
+// KDF calls are compared byte for byte with
+//   tree_node_[left(N)]_secret  = ExpandWithLabel(tree_node_[N]_secret, "tree", "left",  KDF.Nh)
+//   tree_node_[right(N)]_secret = ExpandWithLabel(tree_node_[N]_secret, "tree", "right", KDF.Nh)
+//   handshake_ratchet_secret_[N]_[0]   = ExpandWithLabel(tree_node_[N]_secret, "handshake", "", KDF.Nh)
+//   application_ratchet_secret_[N]_[0] = ExpandWithLabel(tree_node_[N]_secret, "application", "", KDF.Nh)
+//   DeriveTreeSecret(Secret, Label, Generation, Length) =
+//       ExpandWithLabel(Secret, Label, Generation, Length)          (Generation: uint32)
+//   ratchet_nonce_[N]_[j] = DeriveTreeSecret(ratchet_secret_[N]_[j], "nonce", j, AEAD.Nn)
+//   ratchet_key_[N]_[j]   = DeriveTreeSecret(ratchet_secret_[N]_[j], "key", j, AEAD.Nk)
+//   ratchet_secret_[N]_[j+1] = DeriveTreeSecret(ratchet_secret_[N]_[j], "secret", j, KDF.Nh)
+use super::*;
+
+crate::c13_ghost_support!();
+
+// Independent child computation (not the xor formulas of math.rs / RFC appendix C): a node
+// whose index ends in k one-bits (k >= 1) is the root of a subtree of 2^k leaves; its
+// children are the midpoints of the two halves, 2^(k-1) below / above it.
+fn spec_level(x: u32) -> u32 {
+    let mut k = 0;
+    let mut y = x;
+    while y % 2 == 1 {
+        k += 1;
+        y /= 2;
+    }
+    k
+}
+
+fn node_secret<'a>(t: &'a SecretTree<u32>, i: u32) -> Option<&'a [u8]> {
+    match t.known_secrets.inner.get(&i) {
+        Some(SecretTreeNode::Secret(s)) => Some(s.0.as_slice()),
+        _ => None,
+    }
+}
+
+fn tree_with(leaf_count: u32, index: u32, secret: &[u8]) -> SecretTree<u32> {
+    let mut t = SecretTree::<u32>::empty();
+    t.leaf_count = leaf_count;
+    t.known_secrets
+        .set_node(index, SecretTreeNode::Secret(TreeSecret::from(secret.to_vec())));
+    t
+}
+
+// ------------------------------------------------------------ consume_node
+// every parent node of a 8-leaf tree (indices 1, 3, 5, 7, 9, 11, 13), symbolic secret
+#[kani::proof]
+#[kani::stub(zeroize::optimization_barrier, noop_barrier)]
+#[kani::unwind(34)]
+fn c13_consume_node_bounded_8() {
+    let p = GhostProvider::new();
+    let secret = any_exact::<NH>();
+    let half: u32 = kani::any();
+    kani::assume(half < 7);
+    let index = 2 * half + 1;
+    let mut t = tree_with(8, index, &secret);
+
+    let r = t.consume_node(&p, &index);
+    assert!(r.is_ok());
+    kani::cover!(index == 7);
+    kani::cover!(index == 13);
+
+    let k = spec_level(index);
+    let left = index - (1u32 << (k - 1));
+    let right = index + (1u32 << (k - 1));
+    assert!(p.calls() == 2);
+    let l = p.find(Op::Expand, &secret, &rfc_kdf_label(NH as u16, b"tree", b"left"), NH);
+    let r = p.find(Op::Expand, &secret, &rfc_kdf_label(NH as u16, b"tree", b"right"), NH);
+    assert!(l.is_some() && r.is_some());
+    // the consumed node is gone, exactly the two children were added
+    assert!(t.known_secrets.inner.len() == 2);
+    assert!(node_secret(&t, index).is_none());
+    assert!(is_out(node_secret(&t, left).unwrap(), l.unwrap(), NH));
+    assert!(is_out(node_secret(&t, right).unwrap(), r.unwrap(), NH));
+}
+
+// ------------------------------------------------------------ SecretKeyRatchet::new
+#[kani::proof]
+#[kani::stub(zeroize::optimization_barrier, noop_barrier)]
+#[kani::unwind(34)]
+fn c13_ratchet_new() {
+    let p = GhostProvider::new();
+    let secret = any_exact::<NH>();
+    let handshake: bool = kani::any();
+    let kt = if handshake { KeyType::Handshake } else { KeyType::Application };
+    let r = SecretKeyRatchet::new(&p, &secret, kt);
+    assert!(r.is_ok());
+    let r = r.ok().unwrap();
+    kani::cover!(handshake);
+    kani::cover!(!handshake);
+    let label: &[u8] = if handshake { b"handshake" } else { b"application" };
+    assert!(p.calls() == 1);
+    assert!(p.is(0, Op::Expand, &secret, &rfc_kdf_label(NH as u16, label, &[]), NH));
+    assert!(is_out(&r.secret, 1, NH));
+    assert!(r.generation == 0);
+    assert!(r.history.is_empty());
+}
+
+#[kani::proof]
+#[kani::stub(zeroize::optimization_barrier, noop_barrier)]
+#[kani::unwind(34)]
+fn c13_ratchet_new_provider_error() {
+    let p = GhostProvider::failing_at(0);
+    let secret = any_exact::<NH>();
+    let kt = if kani::any() { KeyType::Handshake } else { KeyType::Application };
+    let r = SecretKeyRatchet::new(&p, &secret, kt);
+    kani::cover!(true);
+    assert!(is_provider_error(&r));
+    core::mem::forget(r);
+}
+
+fn ratchet(secret: &[u8], generation: u32) -> SecretKeyRatchet {
+    SecretKeyRatchet {
+        secret: TreeSecret::from(secret.to_vec()),
+        generation,
+        history: Default::default(),
+    }
+}
+
+// ------------------------------------------------------------ derive_secret (DeriveTreeSecret)
+// every generation (u32), every length 0..=65535, label of <= 4 symbolic bytes
+#[kani::proof]
+#[kani::stub(zeroize::optimization_barrier, noop_barrier)]
+#[kani::unwind(34)]
+fn c13_ratchet_derive_secret_bounded_4() {
+    let p = GhostProvider::new();
+    let secret = any_exact::<NH>();
+    let generation: u32 = kani::any();
+    let label = any_bytes::<4>();
+    let len: usize = kani::any();
+    kani::assume(len <= 0xffff);
+    let rt = ratchet(&secret, generation);
+
+    let r = rt.derive_secret(&p, &label, len);
+    assert!(r.is_ok());
+    let o = r.ok().unwrap();
+    kani::cover!(generation == 0x0102_0304 && len == 0xffff && label.len() == 4);
+
+    let mut ctx = Vec::new();
+    rfc_u32(&mut ctx, generation);
+    assert!(p.calls() == 1);
+    assert!(p.is(0, Op::Expand, &secret, &rfc_kdf_label(len as u16, &label, &ctx), len));
+    assert!(o.len() == len);
+    let i: usize = kani::any();
+    kani::assume(i < len);
+    assert!(o[i] == 1);
+    core::mem::forget(o);
+}
+
+#[kani::proof]
+#[kani::stub(zeroize::optimization_barrier, noop_barrier)]
+#[kani::unwind(34)]
+fn c13_ratchet_derive_secret_provider_error() {
+    let p = GhostProvider::failing_at(0);
+    let secret = any_exact::<NH>();
+    let rt = ratchet(&secret, kani::any());
+    let r = rt.derive_secret(&p, b"key", NK);
+    kani::cover!(true);
+    assert!(is_provider_error(&r));
+    core::mem::forget(r);
+}
+
+// ------------------------------------------------------------ next_message_key
+// every generation j < 2^32 - 1 (at j = 2^32 - 1 the code's `generation + 1` overflows)
+#[kani::proof]
+#[kani::stub(zeroize::optimization_barrier, noop_barrier)]
+#[kani::unwind(34)]
+fn c13_ratchet_next_message_key() {
+    let p = GhostProvider::new();
+    let secret = any_exact::<NH>();
+    let j: u32 = kani::any();
+    kani::assume(j < u32::MAX);
+    let mut rt = ratchet(&secret, j);
+
+    let r = rt.next_message_key(&p);
+    assert!(r.is_ok());
+    let k = r.ok().unwrap();
+    kani::cover!(j == 0xfffe_fdfc);
+
+    let mut ctx = Vec::new();
+    rfc_u32(&mut ctx, j);
+    assert!(p.calls() == 3);
+    let n = p.find(Op::Expand, &secret, &rfc_kdf_label(NN as u16, b"nonce", &ctx), NN);
+    let e = p.find(Op::Expand, &secret, &rfc_kdf_label(NK as u16, b"key", &ctx), NK);
+    let s = p.find(Op::Expand, &secret, &rfc_kdf_label(NH as u16, b"secret", &ctx), NH);
+    assert!(n.is_some() && e.is_some() && s.is_some());
+    assert!(is_out(&k.nonce, n.unwrap(), NN));
+    assert!(is_out(&k.key, e.unwrap(), NK));
+    assert!(k.generation == j);
+    assert!(is_out(&rt.secret, s.unwrap(), NH));
+    assert!(rt.generation == j + 1);
+}
+
+// a provider failure at any of the three derivations is reported as CryptoProviderError
+#[kani::proof]
+#[kani::stub(zeroize::optimization_barrier, noop_barrier)]
+#[kani::unwind(34)]
+fn c13_ratchet_next_message_key_provider_error() {
+    let at: usize = kani::any();
+    kani::assume(at < 3);
+    let p = GhostProvider::failing_at(at);
+    let secret = any_exact::<NH>();
+    let j: u32 = kani::any();
+    kani::assume(j < u32::MAX);
+    let mut rt = ratchet(&secret, j);
+    let r = rt.next_message_key(&p);
+    kani::cover!(at == 2);
+    assert!(is_provider_error(&r));
+    assert!(p.calls() == at + 1);
+    core::mem::forget(r);
+}
+
+// ------------------------------------------------------------ whole path: root -> leaf -> key
+// 4-leaf tree, every leaf (node index 0, 2, 4, 6), both key types: the first message key of
+// a fresh epoch is derived through the chain
+//   encryption_secret -> "tree"/left|right (twice) -> "handshake"|"application" -> nonce/key
+// and the sibling secrets on the way stay in the tree.
+#[kani::proof]
+#[kani::stub(zeroize::optimization_barrier, noop_barrier)]
+#[kani::unwind(34)]
+fn c13_tree_first_message_key_bounded_4() {
+    let p = GhostProvider::new();
+    let enc = any_exact::<NH>();
+    let leaf: u32 = kani::any();
+    kani::assume(leaf < 4);
+    let handshake: bool = kani::any();
+    let kt = if handshake { KeyType::Handshake } else { KeyType::Application };
+    let mut t = SecretTree::<u32>::new(4, Zeroizing::new(enc.clone()));
+
+    let r = t.next_message_key(&p, 2 * leaf, kt);
+    assert!(r.is_ok());
+    let k = r.ok().unwrap();
+    kani::cover!(leaf == 3 && handshake);
+    kani::cover!(leaf == 0 && !handshake);
+
+    // 4 leaves: nodes 0..=6, root 3, its children 1 and 5, leaves 0 2 4 6
+    let left_l = rfc_kdf_label(NH as u16, b"tree", b"left");
+    let right_l = rfc_kdf_label(NH as u16, b"tree", b"right");
+    let root_l = p.find(Op::Expand, &enc, &left_l, NH);
+    let root_r = p.find(Op::Expand, &enc, &right_l, NH);
+    assert!(root_l.is_some() && root_r.is_some());
+    let (mid, other_mid, other_mid_idx) = if leaf < 2 {
+        (root_l.unwrap(), root_r.unwrap(), 5u32)
+    } else {
+        (root_r.unwrap(), root_l.unwrap(), 1u32)
+    };
+    let mid_l = p.find(Op::Expand, &out(mid, NH), &left_l, NH);
+    let mid_r = p.find(Op::Expand, &out(mid, NH), &right_l, NH);
+    assert!(mid_l.is_some() && mid_r.is_some());
+    let (leaf_tag, sib_tag, sib_idx) = if leaf % 2 == 0 {
+        (mid_l.unwrap(), mid_r.unwrap(), 2 * leaf + 2)
+    } else {
+        (mid_r.unwrap(), mid_l.unwrap(), 2 * leaf - 2)
+    };
+    let hs = p.find(Op::Expand, &out(leaf_tag, NH), &rfc_kdf_label(NH as u16, b"handshake", &[]), NH);
+    let ap = p.find(Op::Expand, &out(leaf_tag, NH), &rfc_kdf_label(NH as u16, b"application", &[]), NH);
+    assert!(hs.is_some() && ap.is_some());
+    let used = if handshake { hs.unwrap() } else { ap.unwrap() };
+    let gen0 = [0u8, 0, 0, 0];
+    let n = p.find(Op::Expand, &out(used, NH), &rfc_kdf_label(NN as u16, b"nonce", &gen0), NN);
+    let e = p.find(Op::Expand, &out(used, NH), &rfc_kdf_label(NK as u16, b"key", &gen0), NK);
+    let s = p.find(Op::Expand, &out(used, NH), &rfc_kdf_label(NH as u16, b"secret", &gen0), NH);
+    assert!(n.is_some() && e.is_some() && s.is_some());
+    assert!(p.calls() == 9);
+    assert!(is_out(&k.nonce, n.unwrap(), NN));
+    assert!(is_out(&k.key, e.unwrap(), NK));
+    assert!(k.generation == 0);
+
+    // tree afterwards: the two copath secrets and the leaf's ratchets
+    assert!(t.known_secrets.inner.len() == 3);
+    assert!(is_out(node_secret(&t, other_mid_idx).unwrap(), other_mid, NH));
+    assert!(is_out(node_secret(&t, sib_idx).unwrap(), sib_tag, NH));
+    match t.known_secrets.inner.get(&(2 * leaf)) {
+        Some(SecretTreeNode::Ratchet(rs)) => {
+            let (used_r, idle_r, idle_tag) = if handshake {
+                (&rs.handshake, &rs.application, ap.unwrap())
+            } else {
+                (&rs.application, &rs.handshake, hs.unwrap())
+            };
+            assert!(is_out(&used_r.secret, s.unwrap(), NH) && used_r.generation == 1);
+            assert!(is_out(&idle_r.secret, idle_tag, NH) && idle_r.generation == 0);
+        }
+        _ => assert!(false),
+    }
+}
